@@ -4,7 +4,7 @@
 (*         of the real Go values: input before the operation, input after it, result, and for   *)
 (*         every mutation experiment (fresh input, operation, one mutation) both sides after it *)
 (*  write: {nodes: [{g, outs: [{w, s, x}]}]}  writer text for every subtree: simple vs gen       *)
-(*  parse: {text, gerr, oerr, g, o}  gen.Parser output vs Generify(oj.Parser output)            *)
+(*  parse: {text, rs: [{m, gerr, oerr, g, o}]}  gen.Parser vs Generify(oj.Parser) per run mode     *)
 (* A conv line is replayed with the actions of Convert: TLoad = Build with the logged tree and  *)
 (* operation, TOp = Copy or InPlace, TJudge compares the logged observations with the model     *)
 (* state: Preserve (FirstBad with the allowances), InputKept, and for every experiment the      *)
@@ -89,9 +89,15 @@ FirstNode(ns, k) == IF k > Len(ns) THEN <<>>
                     ELSE LET d == SelectSeq(ns[k].outs, LAMBDA o : o.s # o.x) IN
                          IF d # <<>> THEN BadA(d[1].w, "text-differs", <<ns[k].g>>) ELSE FirstNode(ns, k + 1)
 JudgeWrite(L) == FirstNode(L.nodes, 1)
-JudgeParse(L) == IF L.gerr \/ L.oerr THEN <<>>            \* accept/reject agreement is C03's subject
-                 ELSE LET d == FirstDiff(L.g, L.o) IN
-                      IF d # <<>> THEN BadA("gen.Parser=Generify(oj.Parser)", "parse-differs", <<d[1].gi, d[1].go>>) ELSE <<>>
+\* every run mode of the pair of parsers (whole-buffer Parse; ParseReader with whole / 1 / 3 / 7-byte / half reads)
+ParseApi(m) == IF m = "parse" THEN "gen.Parser=Generify(oj.Parser)" ELSE "gen.Parser.ParseReader=Generify(oj.Parser.ParseReader)"
+RECURSIVE JudgeRuns(_, _)
+JudgeRuns(rs, k) ==
+   IF k > Len(rs) THEN <<>>
+   ELSE LET r == rs[k]
+            d == IF r.gerr \/ r.oerr THEN <<>> ELSE FirstDiff(r.g, r.o) IN      \* accept/reject agreement is C03's subject
+        IF d # <<>> THEN BadA(ParseApi(r.m), "parse-differs", <<d[1].gi, d[1].go>>) ELSE JudgeRuns(rs, k + 1)
+JudgeParse(L) == JudgeRuns(L.rs, 1)
 
 TCross == /\ pc = "grow" /\ c <= N /\ Log[c].ev # "conv"
           /\ LET j == IF Log[c].ev = "write" THEN JudgeWrite(Log[c]) ELSE JudgeParse(Log[c]) IN
